@@ -41,7 +41,7 @@ def rules(ctx: Ctx) -> None:
             continue
         cfg = flow(prog, f).cfg
         ctx.touched(f)
-        owner = f"{f.cls.name}.{f.name}" if f.cls else f.qual.split(".", 2)[-1]
+        owner = f.owner
         for s in stores:
             n_stores += 1
             var = s.value.id
